@@ -2,7 +2,7 @@
    Property-level statements only; each is closed by [exact] of a lemma proved in Proof/.
    Each cube is represented by the list of its hyperplanes along the common axis (element type A
    arbitrary), so [concat cubes] is the concatenated array seen along that axis. *)
-From NDV Require Import M_IndexAsCube P_IndexAsCube.
+From NDV Require Import M_IndexAsCube P_IndexAsCube P_IacIntSlice.
 
 (* integer on the common axis: negative indices count from the end of the concatenation, positions
    past either end raise IndexError, otherwise exactly the element numpy would return, as one cube *)
@@ -39,6 +39,15 @@ Theorem C12_new_common_axis : forall ca its, (ca <= length its)%nat ->
   iac_new_common ca its = zlen (filter (fun x => negb (is_int x)) (firstn ca its)).
 Proof. exact iac_new_common_rank. Qed.
 Print Assumptions C12_new_common_axis.
+
+(* an integer and the one-element slice at the same position agree: [i] is the cube (k, j) exactly where [i:i+1] is
+   the sequence holding the single piece (k, j, 1) *)
+Theorem C12_int_slice_agree : forall lens i, allpos lens -> 0 <= i < zsum lens ->
+  exists k j, iac_common lens (IInt i) = Ok (RCube k j) /\
+              iac_common lens (ISlice (Some i) (Some (i + 1)) None) = Ok (RSeq [(k, j, 1)]) /\
+              0 <= j < nth k lens 0 /\ (k < length lens)%nat.
+Proof. exact iac_int_slice. Qed.
+Print Assumptions C12_int_slice_agree.
 
 (* non-vacuity: three cubes of lengths 2,3,2; [-3:] yields the tail of cube 1 and all of cube 2 *)
 Example C12_nonvacuous :
